@@ -104,6 +104,14 @@ func (rec *Recorder) call(ctx context.Context, args []string) ([]string, error) 
 // refuse every external command; `__drain` reads its stdin to EOF.
 func execHandler(next interp.ExecHandlerFunc) interp.ExecHandlerFunc {
 	return func(ctx context.Context, args []string) error {
+		if args[0] == "__spin" { // sleep a little: completion order perturbation
+			n := 0
+			if len(args) > 1 {
+				fmt.Sscan(args[1], &n)
+			}
+			time.Sleep(time.Duration(n) * 300 * time.Microsecond)
+			return nil
+		}
 		if args[0] == "__drain" {
 			hc := interp.HandlerCtx(ctx)
 			if hc.Stdin != nil {
@@ -154,8 +162,9 @@ func FuncBodies(src string) ([]string, error) {
 // Case: programs to run in order on one Runner. Steps with Sub=true run on a
 // Runner.Subshell() copy made right before (the "api" context).
 type Step struct {
-	Src string `json:"src"`
-	Sub bool   `json:"sub,omitempty"`
+	Src   string `json:"src"`
+	Sub   bool   `json:"sub,omitempty"`
+	Async bool   `json:"async,omitempty"` // with Sub: run the copy in its own goroutine, concurrently with the later steps
 }
 
 type Case struct {
@@ -186,6 +195,8 @@ func RunCase(scratch string, c Case, yield func()) Result {
 		}
 		ctx, cancel := context.WithTimeout(context.Background(), 5*time.Second)
 		defer cancel()
+		var wg sync.WaitGroup
+		defer wg.Wait()
 		for _, st := range c.Steps {
 			f, err := Parse(st.Src)
 			if err != nil {
@@ -195,6 +206,14 @@ func RunCase(scratch string, c Case, yield func()) Result {
 			run := r
 			if st.Sub {
 				run = r.Subshell()
+			}
+			if st.Sub && st.Async {
+				wg.Add(1)
+				go func() {
+					defer wg.Done()
+					run.Run(ctx, f)
+				}()
+				continue
 			}
 			err = run.Run(ctx, f)
 			if ctx.Err() != nil {
@@ -270,12 +289,13 @@ func WorkerMain(scratch string, yield func()) {
 // per-case watchdog; a hang or crash kills and restarts the worker and is
 // recorded as the observation of that case.
 type Pool struct {
-	Scratch string
-	Args    []string // extra args for the worker
-	cmd     *exec.Cmd
-	stdin   io.WriteCloser
-	lines   chan []byte
-	Stderr  bytes.Buffer
+	RaceHalt bool // worker dies at the first race report (attribution to the running case)
+	Scratch  string
+	Args     []string // extra args for the worker
+	cmd      *exec.Cmd
+	stdin    io.WriteCloser
+	lines    chan []byte
+	Stderr   bytes.Buffer
 }
 
 func (p *Pool) start() {
@@ -285,7 +305,12 @@ func (p *Pool) start() {
 		exe = os.Args[0]
 	}
 	p.cmd = exec.Command(exe, args...)
-	p.cmd.Env = append(os.Environ(), "GORACE=halt_on_error=0")
+	if p.RaceHalt {
+		p.cmd.Env = append(os.Environ(), "GORACE=halt_on_error=1")
+	} else {
+		p.cmd.Env = append(os.Environ(), "GORACE=halt_on_error=0")
+	}
+	p.Stderr.Reset()
 	p.stdin, _ = p.cmd.StdinPipe()
 	so, _ := p.cmd.StdoutPipe()
 	p.cmd.Stderr = &p.Stderr
@@ -348,8 +373,8 @@ func (p *Pool) Run(c Case) Result {
 		if !ok {
 			p.kill()
 			msg := p.Stderr.String()
-			if len(msg) > 2000 {
-				msg = msg[len(msg)-2000:]
+			if len(msg) > 6000 {
+				msg = msg[:6000]
 			}
 			return Result{ID: c.ID, Panic: "worker died: " + msg}
 		}
